@@ -408,6 +408,7 @@ func c12R6(c *Ctx, fns []*ssa.Function) {
 		return
 	}
 	flow := c11NewFlow(c, roles, fns)
+	c12R7LinkSites(c, fns, flow)
 	permIdx := map[string]int{"os.MkdirAll": 1, "os.Mkdir": 1, "os.OpenFile": 2, "os.Create": -1} // os.Create: fixed 0666, no way to carry the header mode
 	count := map[string]int{}
 	for _, s := range Inventory(fns, func(n string) bool { _, ok := permIdx[n]; return ok }) {
@@ -453,9 +454,36 @@ const c12R7 = "C12.R7.preserved-modes-exact"
 // has no such chmod, its call sites are examined instead (helper / dispatch table).
 func c12R7Site(c *Ctx, fns []*ssa.Function, key string, s EffectSite) {
 	flags := c12FlagSets(fns, "~/content/file.Store.PreservePermissions")
-	skip, why := c12ChmodSkipped(fns, flags, s.Fn, s.Call.(ssa.Instruction), s.Call.Common().Args[0], s.Call.Value(), nil, 0)
+	skip, why, _ := c12ChmodSkipped(fns, flags, s.Fn, s.Call.(ssa.Instruction), s.Call.Common().Args[0], s.Call.Value(), nil, 0)
 	c.Check(c12R7, key, s.Call.Pos(), !skip, ifelse(!skip, "with PreservePermissions set, the entry created here is chmod'ed to its header mode before the next entry",
 		"with PreservePermissions set, "+why+": the entry created by "+s.Callee+" [in "+FnName(s.Fn)+"] keeps the mode produced under the umask, so the unpacked tree does not have the packed modes"))
+}
+
+// c12R7LinkSites: entries that own no mode (symbolic and hard links) must not be
+// chmod'ed: os.Chmod follows the link and changes the TARGET's mode (or fails on
+// a dangling link).  From every archive-entry os.Symlink / os.Link site, with the
+// entry kind resolved and PreservePermissions set, no chmod of that entry path
+// may be reachable before the next entry.
+func c12R7LinkSites(c *Ctx, fns []*ssa.Function, flow *c11Flow) {
+	flags := c12FlagSets(fns, "~/content/file.Store.PreservePermissions")
+	count := map[string]int{}
+	for _, s := range Inventory(fns, func(n string) bool { return n == "os.Symlink" || n == "os.Link" }) {
+		site := &c11Site{Fn: s.Fn, Call: s.Call, Name: s.Callee, Leafs: map[int][]c11Leaf{}}
+		var ls []c11Leaf
+		flow.prov(s.Call.Common().Args[1], s.Call.(ssa.Instruction), 0, map[ssa.Value]bool{}, &ls)
+		site.Leafs[1] = ls
+		if c11OriginRole(flow, site) != "archive-entry" {
+			continue
+		}
+		key := "archive-entry|" + s.Callee
+		count[key]++
+		if count[key] > 1 {
+			key += "#" + string(rune('0'+count[key]))
+		}
+		_, _, reached := c12ChmodSkipped(fns, flags, s.Fn, s.Call.(ssa.Instruction), s.Call.Common().Args[1], nil, nil, 0)
+		c.Check(c12R7, key+"|not-chmodded-through-link", s.Call.Pos(), !reached, ifelse(!reached, "no chmod of the link's path is reachable for this entry kind (a link owns no mode)",
+			"with PreservePermissions set, a chmod of the entry path is reached for a link entry created by "+s.Callee+" [in "+FnName(s.Fn)+"]: os.Chmod follows the link, so the mode of the link's TARGET is changed (or the unpack fails on a dangling link)"))
+	}
 }
 
 func c12TypeflagTest(cond ssa.Value) (k int64, eq bool, ok bool) {
@@ -574,7 +602,7 @@ func c12HasChmod(fn *ssa.Function, fns []*ssa.Function, depth int) bool {
 }
 
 // c12ChmodSkipped explores fn from just behind instruction `from` (from == nil: from the entry of fn).
-func c12ChmodSkipped(fns []*ssa.Function, flags map[*ssa.Function]map[ssa.Value]bool, fn *ssa.Function, from ssa.Instruction, path ssa.Value, handleTuple ssa.Value, kind *int64, depth int) (bool, string) {
+func c12ChmodSkipped(fns []*ssa.Function, flags map[*ssa.Function]map[ssa.Value]bool, fn *ssa.Function, from ssa.Instruction, path ssa.Value, handleTuple ssa.Value, kind *int64, depth int) (skippedOut bool, whyOut string, reachedOut bool) {
 	// the entry kind: a Typeflag == k edge dominating the site
 	if kind == nil && from != nil {
 		for _, i := range Ifs(fn) {
@@ -609,6 +637,8 @@ func c12ChmodSkipped(fns []*ssa.Function, flags map[*ssa.Function]map[ssa.Value]
 			chmods[call.(ssa.Instruction)] = true
 		}
 	}
+	reachHelpers := map[ssa.Instruction]bool{} // helper calls inside which a chmod of the entry is reachable (under the same kind / flag)
+	reached := false
 	// … or a call of an in-package helper that is handed the entry's path and, explored from its entry under the same
 	// assumptions, never skips the chmod (restoreMetadata-style helpers)
 	if depth < 3 {
@@ -624,8 +654,12 @@ func c12ChmodSkipped(fns []*ssa.Function, flags map[*ssa.Function]map[ssa.Value]
 				if i >= len(H.Params) || !c11SameLoc(a, path) {
 					continue
 				}
-				if sk, _ := c12ChmodSkipped(fns, flags, H, nil, H.Params[i], nil, kind, depth+1); !sk && c12HasChmod(H, fns, 0) {
+				sk, _, inner := c12ChmodSkipped(fns, flags, H, nil, H.Params[i], nil, kind, depth+1)
+				if !sk && c12HasChmod(H, fns, 0) {
 					chmods[call.(ssa.Instruction)] = true
+				}
+				if inner {
+					reachHelpers[call.(ssa.Instruction)] = true
 				}
 			}
 		}
@@ -731,7 +765,13 @@ func c12ChmodSkipped(fns []*ssa.Function, flags map[*ssa.Function]map[ssa.Value]
 				skipped = true // the next entry is reached
 				return
 			}
+			if reachHelpers[in] && kind != nil {
+				reached = true
+			}
 			if chmods[in] {
+				if kind != nil {
+					reached = true // (judged only where the entry kind is known)
+				}
 				return
 			}
 			if r, isRet := in.(*ssa.Return); isRet {
@@ -770,14 +810,14 @@ func c12ChmodSkipped(fns []*ssa.Function, flags map[*ssa.Function]map[ssa.Value]
 		walk(fn.Blocks[0], nil, 0, map[*ssa.Phi]ssa.Value{})
 	}
 	if !skipped {
-		return false, ""
+		return false, "", reached
 	}
 	if len(chmods) > 0 {
-		return true, "a path from the creation reaches the next entry / a successful return without the chmod to the header mode"
+		return true, "a path from the creation reaches the next entry / a successful return without the chmod to the header mode", reached
 	}
 	// no chmod of this entry here: the creating function is a helper — look at its call sites
 	if depth >= 3 {
-		return true, "no chmod of the created entry to its header mode is found"
+		return true, "no chmod of the created entry to its header mode is found", reached
 	}
 	pidx := -1
 	if rs := Roots(path); len(rs) == 1 {
@@ -790,7 +830,7 @@ func c12ChmodSkipped(fns []*ssa.Function, flags map[*ssa.Function]map[ssa.Value]
 		}
 	}
 	if pidx < 0 {
-		return true, "no chmod of the created entry to its header mode is found"
+		return true, "no chmod of the created entry to its header mode is found", reached
 	}
 	type site struct {
 		g    *ssa.Function
@@ -837,17 +877,22 @@ func c12ChmodSkipped(fns []*ssa.Function, flags map[*ssa.Function]map[ssa.Value]
 		}
 	}
 	if len(sites) == 0 {
-		return true, "no chmod of the created entry to its header mode is found"
+		return true, "no chmod of the created entry to its header mode is found", reached
 	}
+	skippedUp, whyUp := false, ""
 	for _, st := range sites {
 		if _, isDefer := st.call.(*ssa.Defer); isDefer {
-			return true, "the creating helper is called deferred"
+			return true, "the creating helper is called deferred", reached
 		}
-		if sk, why := c12ChmodSkipped(fns, flags, st.g, st.call.(ssa.Instruction), st.call.Common().Args[pidx], nil, st.kind, depth+1); sk {
-			return true, why
+		sk, why, r2 := c12ChmodSkipped(fns, flags, st.g, st.call.(ssa.Instruction), st.call.Common().Args[pidx], nil, st.kind, depth+1)
+		if r2 {
+			reached = true
+		}
+		if sk {
+			skippedUp, whyUp = true, why
 		}
 	}
-	return false, ""
+	return skippedUp, whyUp, reached
 }
 
 // ---------- R1: directory packer ----------
@@ -2233,7 +2278,7 @@ func c12R3(c *Ctx, fns []*ssa.Function) {
 
 func c12R4(c *Ctx, fns []*ssa.Function) {
 	const R4 = "C12.R4.duplicates-restored"
-	c.Expect(R4, 5)
+	c.Expect(R4, 6)
 	push := c.P.Fn(c11Pkg, "Store.Push")
 	if push == nil {
 		c.LostAnchor(R4, "(*~/content/file.Store).Push")
@@ -2370,6 +2415,7 @@ type c12IterBody struct {
 	Fn      *ssa.Function     // function holding the body (the enclosing function, or the yield closure)
 	Entry   *ssa.BasicBlock   // first block of the body
 	Next    []ssa.Instruction // reaching one of these means "next element" (loop header / `return true`)
+	Exit    []Edge            // natural loop: the "collection exhausted" exit edge
 	In      func(*ssa.BasicBlock) bool
 	IsYield bool
 }
@@ -2379,7 +2425,8 @@ func c12IterBodyOver(fn *ssa.Function, coll ssa.Value) *c12IterBody {
 	for _, l := range Loops(fn) {
 		if r, _, body, _, ok := l.RangeIndex(); ok && c11SameRoots(r, coll) {
 			ll := l
-			return &c12IterBody{Fn: fn, Entry: body.To, Next: []ssa.Instruction{l.Header.Instrs[0]}, In: func(b *ssa.BasicBlock) bool { return ll.Blocks[b] && b != ll.Header }}
+			_, _, _, exhausted, _ := l.RangeIndex()
+			return &c12IterBody{Fn: fn, Entry: body.To, Next: []ssa.Instruction{l.Header.Instrs[0]}, Exit: []Edge{exhausted}, In: func(b *ssa.BasicBlock) bool { return ll.Blocks[b] && b != ll.Header }}
 		}
 	}
 	// range-over-func: seq := slices.Values(coll) / slices.All(coll); seq(yield)
@@ -2582,6 +2629,39 @@ func c12R4EveryNamedSuccessor(c *Ctx, R4 string, RD *ssa.Function, rdCallees map
 	if ok {
 		c.OK(R4, key, blockPos(it.Entry), "every path through the loop body that skips the restore step is decided only by the successor's title (empty / already exists)")
 	}
+	// the loop runs to its end: it is left early only with a (non-tolerated) error — a tolerated error, or anything else,
+	// may skip ONE successor but must not end the restoration of the others with a nil result
+	endKey := rn + "|loop-runs-to-the-end"
+	okEnd := true
+	if !it.IsYield {
+		for _, a := range c11SuccessAtoms(F) {
+			ab, ai := a.anchor()
+			if reach(it.Entry, 0, ab.Instrs[ai], newCut().Edges(it.Exit...)) {
+				okEnd = false
+			}
+		}
+	} else {
+		// range-over-func body: stopping (return false) needs a non-nil error recorded in the enclosing function's result
+		_, stop := c11YieldReturns(F)
+		var errStores []ssa.Instruction
+		AllInstrs(F, func(in ssa.Instruction) {
+			if st, isStore := in.(*ssa.Store); isStore {
+				if _, isFV := st.Addr.(*ssa.FreeVar); isFV && isErrorType(st.Val.Type()) && ErrNilStatus(st.Val, 0) != IsNil {
+					errStores = append(errStores, st)
+				}
+			}
+		})
+		for _, ret := range stop {
+			if !ReachableFromEntry(ret) {
+				continue
+			}
+			if len(errStores) == 0 || !MustPass(ret, newCut().Instr(errStores...)) {
+				okEnd = false
+			}
+		}
+	}
+	c.Check(R4, endKey, blockPos(it.Entry), okEnd, ifelse(okEnd, "the loop over the successors is left early only with an error",
+		"the loop over the successors can be left early with a nil result (return nil / break inside the loop): the remaining same-content successors are never materialised although Push reports success"))
 }
 
 // c12PredicateTolerates: for an in-module helper P(err) bool, the result
@@ -2950,6 +3030,13 @@ var c12Mutants = []Mutant{
 		Old:    "\t\tif name == \"\" || s.nameExists(name) {\n\t\t\tcontinue\n\t\t}\n\t\tif err := func() error {",
 		New:    "\t\tif name == \"\" || s.nameExists(name) || successor.Size == 0 {\n\t\t\tcontinue\n\t\t}\n\t\tif err := func() error {",
 		Expect: "C12.R4.duplicates-restored|(*~/content/file.Store).restoreDuplicates|every-named-successor-restored"},
+	{Name: "restorer-stops-at-first-missing-blob", File: "content/file/file.go",
+		Old:    "\t\t\tcase errors.Is(err, errdef.ErrNotFound):\n\t\t\t\t// allow pushing manifests before blobs\n",
+		New:    "\t\t\tcase errors.Is(err, errdef.ErrNotFound):\n\t\t\t\t// allow pushing manifests before blobs\n\t\t\t\treturn nil\n",
+		Expect: "C12.R4.duplicates-restored|(*~/content/file.Store).restoreDuplicates|loop-runs-to-the-end"},
+	{Name: "symlinks-chmodded-too", File: "content/file/utils.go",
+		Old: "\t\tif preservePermissions && (header.Typeflag == tar.TypeReg || header.Typeflag == tar.TypeDir) {", New: "\t\tif preservePermissions {",
+		Expect: "C12.R7.preserved-modes-exact|archive-entry|os.Symlink|not-chmodded-through-link"},
 	{Name: "restorer-tolerates-everything", File: "content/file/file.go",
 		Old: "\t\t\tdefault:\n\t\t\t\treturn err\n", New: "\t\t\tdefault:\n\t\t\t\tcontinue\n",
 		Expect: "C12.R4.duplicates-restored|(*~/content/file.Store).restoreDuplicates|tolerates-only-notfound-and-duplicate"},
